@@ -364,7 +364,7 @@ static void suite8(Pools& pools, Rng& r, bool thorough) {
       ranges.emplace_back(s, s - 1);
   } else {
     std::vector<int> starts = {lo, lo + 1, lo + 7, lo + 126, lo + 127, lo + 128, lo + 129, hi - 100, hi - 20, hi - 3, hi - 1, hi};
-    std::vector<int> lens = {-1, 0, 1, 2, 3, 5, 17, 64, 127, 128, 129, 200, 255};
+    std::vector<int> lens = {-1, 0, 1, 2, 3, 4, 5, 8, 17, 33, 64, 100, 127, 128, 129, 200, 254, 255};
     for (int s : starts)
       for (int len : lens) {
         if (s + len >= lo && s + len <= hi)
@@ -441,7 +441,7 @@ static void suiteGran(Pools& pools, Rng& r, i128 base, bool thorough) {
         continue;
       std::vector<long long> sizes = {(long long)g - 1, g, (long long)g + 1, 2ll * g, 5ll * g + 1, 100, 257, 300};
       for (long long size : sizes) {
-        if (!thorough && r.below(3) != 0)
+        if (!thorough && r.below(2))
           continue;
         i128 S = base + res;
         i128 E = S + size;
@@ -520,7 +520,7 @@ int main(int argc, char** argv) {
     return 2;
   }
   Pools pools;
-  int n = (int)args.num("n", thorough ? 6000 : 250);
+  int n = (int)args.num("n", thorough ? 6000 : 450);
   if (suite == "i8") {
     suite8<int8_t>(pools, r, thorough);
     suite8<uint8_t>(pools, r, thorough);
